@@ -129,7 +129,13 @@ func (c *Ctx) hashTopology() *hashTopo {
 			case *ssa.FieldAddr:
 				// a WaitGroup that is a field of a shared state object made here
 				if isNamed(x.Type(), "sync", "WaitGroup") && !wgField[fmt.Sprintf("%s#%d", x.X.Type().String(), x.Field)] {
-					if _, made := x.X.(*ssa.Alloc); made {
+					made := false
+					for _, o := range append([]ssa.Value{x.X}, origins(x.X)...) {
+						if a, isA := o.(*ssa.Alloc); isA && a.Parent() == t.fn {
+							made = true
+						}
+					}
+					if made {
 						wgField[fmt.Sprintf("%s#%d", x.X.Type().String(), x.Field)] = true
 						wi := &wgInfo{alloc: x}
 						wi.alias = map[ssa.Value]bool{x: true}
@@ -1335,8 +1341,8 @@ func ruleCC7(c *Ctx) *rule {
 					r.ok(key, c.ipos(g.g), "a channel variable")
 					continue
 				}
-				if n := namedOf(et); n != nil && n.Obj().Pkg() != nil && (n.Obj().Pkg().Path() == "sync" || n.Obj().Pkg().Path() == "sync/atomic") {
-					r.ok(key, c.ipos(g.g), "a sync value")
+				if isSyncOnly(et, 0) {
+					r.ok(key, c.ipos(g.g), "a sync value (or a struct of sync values and channels only)")
 					continue
 				}
 			}
@@ -1412,6 +1418,32 @@ func ruleCC7(c *Ctx) *rule {
 		}
 	}
 	return r
+}
+
+// isSyncOnly: a type of package sync / sync/atomic, a channel, or a struct all of whose fields are (a WaitGroup wrapped in a helper type
+// is still only ever touched through the methods of sync).
+func isSyncOnly(t types.Type, depth int) bool {
+	if depth > 3 {
+		return false
+	}
+	if n := namedOf(t); n != nil && n.Obj().Pkg() != nil && (n.Obj().Pkg().Path() == "sync" || n.Obj().Pkg().Path() == "sync/atomic") {
+		return true
+	}
+	switch u := t.Underlying().(type) {
+	case *types.Chan:
+		return true
+	case *types.Struct:
+		if u.NumFields() == 0 {
+			return false
+		}
+		for i := 0; i < u.NumFields(); i++ {
+			if !isSyncOnly(u.Field(i).Type(), depth+1) {
+				return false
+			}
+		}
+		return true
+	}
+	return false
 }
 
 // ---- interval evaluation for HS4 / CC8 ---------------------------------------------------------------------------------------
